@@ -254,7 +254,7 @@ func doWorker(c *vfw.Check, tier string, seed uint64, k, n, secs, maxRuns int, o
 			code = 1
 			return false
 		}
-			return true
+		return true
 	}
 	// frozen regression tapes of earlier violations first (worker 0 only)
 	if k == 0 && detN == 0 {
